@@ -77,8 +77,12 @@ func (r *Reaper) SubmitTxs() {
 	}
 
 	var newTxs [][]byte
+	inBatch := make(map[string]struct{}) // the same bytes listed twice by the executor are submitted once
 	for _, tx := range txs {
 		txHash := hashTx(tx)
+		if _, dup := inBatch[txHash]; dup {
+			continue
+		}
 		key := ds.NewKey(txHash)
 		has, err := r.seenStore.Has(r.ctx, key)
 		if err != nil {
@@ -87,6 +91,7 @@ func (r *Reaper) SubmitTxs() {
 		}
 		if !has {
 			newTxs = append(newTxs, tx)
+			inBatch[txHash] = struct{}{}
 		}
 	}
 
